@@ -38,10 +38,14 @@
 (*                            to be two-phase (SavepointTwoPhase) is NOT   *)
 (*                            enough, as TLC shows: the first phase writes *)
 (*                            the new slot under the old two-phase flag    *)
+(*   RepairSync = FALSE       the repair commit of a recovery does not     *)
+(*                            flush between its slot write and its swap    *)
+(*                            (caught with TornHeader: the god byte of the *)
+(*                            swap persists without the slot)              *)
 (***************************************************************************)
 EXTENDS Naturals, Sequences, FiniteSets, TLC, RecoverOps
 
-CONSTANTS MaxVer, MaxParts, MaxCrash, MaxGrow, TornHeader, SyncBeforeFlip, PickNewer, SavepointTwoPhase, SavepointPreFlush
+CONSTANTS MaxVer, MaxParts, MaxCrash, MaxGrow, TornHeader, SyncBeforeFlip, PickNewer, SavepointTwoPhase, SavepointPreFlush, RepairSync
 
 VARIABLES
   hdr,       \* header in memory: [primary, tpc, rec, slots]
@@ -103,6 +107,7 @@ Persist == LET d == Apply(pend, 1..Len(pend), dgod, dslots, dpages)
 WritePage ==
   LET v == IF cur.stage = "idle" THEN nextVer ELSE cur.ver IN
   /\ v <= MaxVer /\ vparts[v] < MaxParts
+  /\ cur.kind # "rec"                         \* no page is written while the file is being opened
   \* the writes of one flush are issued in no particular order (the header first, usually); a two-phase
   \* commit has flushed everything by the time it swaps the primary
   /\ ~(cur.kind = "2pc" /\ cur.stage \in {"swap", "sync2"})
@@ -218,38 +223,114 @@ Servable(v, pg) == Reach(v) \subseteq pg
 \* the versions the persistent savepoints recorded in v pin can be restored
 SavepointsServable(v, pg) == \A u \in pins[v] : Servable(u, pg)
 
-\* The process dies; any subset of the unsynced writes is on the storage; the file is opened again.
-\* select_primary_slot, then do_repair (a full repair verifies the checksums of the chosen slot's
-\* trees; the repair commit itself is two-phase).
+\* The process dies; any subset of the unsynced writes is on the storage; what was in memory is gone.  The file is
+\* opened again: the recovery below, one action per header write and per sync of TransactionalMemory::new,
+\* Database::do_repair and the repair commit in Database::new (Recover.tla checks the same steps over every header
+\* in isolation).  A crash can strike again between any two of them.
 Crash ==
   /\ crashes < MaxCrash
   /\ \E S \in SUBSET (1..Len(pend)) :
-       LET d == Apply(pend, S, dgod, dslots, dpages)
-           \* the decisions are RecoverOps's (bound to the code image by image: RecoverTrace.tla); a slot is written
-           \* whole here, so its own checksum always verifies
-           serv == [i \in {1, 2} |-> Servable(d.slots[i].ver, d.pages)]
-           sel == Select(d.god.primary, d.god.tpc, [i \in {1, 2} |-> TRUE], [i \in {1, 2} |-> d.slots[i].txn], PickNewer)
-           v == Verify(sel.p, d.god.tpc, serv)
-           failed == v.err
-           p2 == v.p
-           r == d.slots[p2].ver
-       IN /\ bad' = (bad \/ failed \/ r < acked \/ (~failed /\ ~SavepointsServable(r, d.pages)))
+       LET d == Apply(pend, S, dgod, dslots, dpages) IN
           \* page writes of a transaction that never committed belong to nothing any more
           /\ dpages' = {pw \in d.pages : pw[1] < nextVer}
-          \* the repair commit: the same roots under a new transaction id, two-phase
-          /\ dslots' = [d.slots EXCEPT ![Other(p2)] = Slot(nextTxn, r)]
-          /\ dgod' = [primary |-> Other(p2), tpc |-> TRUE, rec |-> TRUE]
-          /\ hdr' = [primary |-> Other(p2), tpc |-> TRUE, rec |-> TRUE, slots |-> dslots']
-          /\ nextTxn' = nextTxn + 1
-          /\ acked' = IF failed THEN acked ELSE r
-          /\ visible' = r
-  /\ pend' = <<>> /\ cur' = None /\ crashes' = crashes + 1
+          /\ dslots' = d.slots /\ dgod' = d.god
+          /\ hdr' = [primary |-> d.god.primary, tpc |-> d.god.tpc, rec |-> d.god.rec, slots |-> d.slots]
+  /\ pend' = <<>> /\ cur' = [ver |-> 0, kind |-> "rec", stage |-> "r_final", sp |-> FALSE] /\ crashes' = crashes + 1
   /\ vparts' = [v \in DOMAIN vparts |-> IF v >= nextVer THEN 0 ELSE vparts[v]]
-  /\ UNCHANGED <<parent, gone, pins, nextVer, grows>>
+  /\ UNCHANGED <<parent, gone, pins, nextVer, nextTxn, acked, visible, grows, bad>>
+
+\* what the caller gets to see once the open has settled on version r
+Settle(r) == bad' = (bad \/ r < acked \/ ~SavepointsServable(r, dpages))
+
+\* finalize(): select_primary_slot; the header is written back iff the recovery flag was set, then flushed
+RFinalize ==
+  /\ cur.stage = "r_final"
+  /\ LET sel == Select(hdr.primary, hdr.tpc, [i \in {1, 2} |-> TRUE], [i \in {1, 2} |-> hdr.slots[i].txn], PickNewer) IN
+       /\ hdr' = [hdr EXCEPT !.primary = sel.p]
+       /\ pend' = IF hdr.rec THEN pend \o HdrWrites(hdr') ELSE pend
+  /\ cur' = [cur EXCEPT !.stage = "r_fsync"]
+  /\ UNCHANGED <<parent, gone, pins, dgod, dslots, dpages, vparts, nextVer, nextTxn, acked, visible, crashes, grows, bad>>
+
+RFinalSync ==
+  /\ cur.stage = "r_fsync"
+  /\ Persist
+  /\ cur' = [cur EXCEPT !.stage = "r_verify"]
+  /\ UNCHANGED <<parent, gone, pins, hdr, vparts, nextVer, nextTxn, acked, visible, crashes, grows, bad>>
+
+\* a two-phase primary with a current allocator-state table (the table itself is not modelled: any two-phase
+\* primary may have one): nothing is verified, nothing is committed; begin_writable() rewrites the header with the
+\* recovery flag set (this action ends with that write: the steps before it touch nothing on the storage)
+RQuick ==
+  /\ cur.stage = "r_verify" /\ hdr.tpc
+  /\ LET r == hdr.slots[hdr.primary].ver IN
+       /\ bad' = (bad \/ ~Servable(r, dpages) \/ r < acked \/ ~SavepointsServable(r, dpages))
+       /\ visible' = r /\ acked' = IF r < acked THEN acked ELSE r
+  /\ nextTxn' = hdr.slots[hdr.primary].txn + 1
+  /\ hdr' = [hdr EXCEPT !.rec = TRUE]
+  /\ pend' = pend \o HdrWrites(hdr')
+  /\ cur' = None
+  /\ UNCHANGED <<parent, gone, pins, dgod, dslots, dpages, vparts, nextVer, crashes, grows>>
+
+\* do_repair: verify the primary's trees, fall back to the other slot; nothing can be served: the open fails
+RVerifyFail ==
+  /\ cur.stage = "r_verify"
+  /\ LET serv == [i \in {1, 2} |-> Servable(hdr.slots[i].ver, dpages)] IN Verify(hdr.primary, hdr.tpc, serv).err
+  /\ bad' = TRUE /\ cur' = None
+  /\ UNCHANGED <<parent, gone, pins, hdr, dgod, dslots, dpages, pend, vparts, nextVer, nextTxn, acked, visible, crashes, grows>>
+
+\* do_repair succeeded (verification reads only); clear_recovery_required(): header write (+ flush: RClearSync)
+RVerifyClear ==
+  /\ cur.stage = "r_verify"
+  /\ LET serv == [i \in {1, 2} |-> Servable(hdr.slots[i].ver, dpages)]
+         v == Verify(hdr.primary, hdr.tpc, serv) IN
+       /\ ~v.err
+       /\ hdr' = [hdr EXCEPT !.primary = v.p, !.rec = FALSE]
+       /\ Settle(hdr.slots[v.p].ver)
+       /\ cur' = [cur EXCEPT !.stage = "r_csync", !.ver = hdr.slots[v.p].ver]
+  /\ pend' = pend \o HdrWrites(hdr')
+  /\ UNCHANGED <<parent, gone, pins, dgod, dslots, dpages, vparts, nextVer, nextTxn, acked, visible, crashes, grows>>
+
+RClearSync ==
+  /\ cur.stage = "r_csync"
+  /\ Persist
+  /\ cur' = [cur EXCEPT !.stage = "r_slot"]
+  /\ UNCHANGED <<parent, gone, pins, hdr, vparts, nextVer, nextTxn, acked, visible, crashes, grows, bad>>
+
+\* the repair commit (two-phase): the same roots under the next transaction id; no page is written
+RSlot ==
+  /\ cur.stage = "r_slot"
+  /\ hdr' = [hdr EXCEPT !.slots[Other(hdr.primary)] = Slot(hdr.slots[hdr.primary].txn + 1, cur.ver)]
+  /\ pend' = pend \o HdrWrites(hdr')
+  /\ cur' = [cur EXCEPT !.stage = "r_sync1"]
+  /\ UNCHANGED <<parent, gone, pins, dgod, dslots, dpages, vparts, nextVer, nextTxn, acked, visible, crashes, grows, bad>>
+
+RSync1 ==
+  /\ cur.stage = "r_sync1"
+  /\ IF RepairSync THEN Persist ELSE UNCHANGED <<dgod, dslots, dpages, pend>>
+  /\ cur' = [cur EXCEPT !.stage = "r_swap"]
+  /\ UNCHANGED <<parent, gone, pins, hdr, vparts, nextVer, nextTxn, acked, visible, crashes, grows, bad>>
+
+RSwap ==
+  /\ cur.stage = "r_swap"
+  /\ hdr' = [hdr EXCEPT !.primary = Other(hdr.primary), !.tpc = TRUE]
+  /\ pend' = pend \o HdrWrites(hdr')
+  /\ cur' = [cur EXCEPT !.stage = "r_sync2"]
+  /\ UNCHANGED <<parent, gone, pins, dgod, dslots, dpages, vparts, nextVer, nextTxn, acked, visible, crashes, grows, bad>>
+
+\* the open returns (begin_writable() is AsIs(TRUE) + a sync)
+RSync2 ==
+  /\ cur.stage = "r_sync2"
+  /\ Persist
+  /\ visible' = cur.ver /\ acked' = IF cur.ver < acked THEN acked ELSE cur.ver
+  /\ nextTxn' = hdr.slots[hdr.primary].txn + 1
+  /\ cur' = None
+  /\ UNCHANGED <<parent, gone, pins, hdr, vparts, nextVer, crashes, grows, bad>>
+
+Recovery == RFinalize \/ RFinalSync \/ RQuick \/ RVerifyFail \/ RVerifyClear \/ RClearSync \/ RSlot \/ RSync1 \/ RSwap \/ RSync2
 
 Next ==
   \/ WritePage \/ (\E k \in {"1pc", "2pc"}, sp \in BOOLEAN, G \in SUBSET Reach(visible) : Begin(k, sp, G)) \/ SetSlot(nextTxn) \/ WriteHdr1 \/ SkipHdr1 \/ Sync1 \/ Swap \/ Sync2
-  \/ NonDurable(nextTxn) \/ AsIs(TRUE) \/ IdleSync \/ PreSync \/ Crash
+  \/ NonDurable(nextTxn) \/ AsIs(TRUE) \/ IdleSync \/ PreSync \/ Crash \/ Recovery
 
 Spec == Init /\ [][Next]_cvars
 
